@@ -570,9 +570,9 @@ import numpy as np
 from pyxel.detectors import CCD, CCDGeometry, CMOS, CMOSGeometry, MKID, MKIDGeometry, APD, APDGeometry, APDCharacteristics, Characteristics, Environment
 def mk(kind):
     if kind == 'APD':
-        return APD(geometry=APDGeometry(row=2, col=3), environment=Environment(), characteristics=APDCharacteristics(roic_gain=0.8, avalanche_gain=2.0, pixel_reset_voltage=12.0))
+        return APD(geometry=APDGeometry(row=2, col=3, pixel_vert_size=1.0, pixel_horz_size=1.0), environment=Environment(), characteristics=APDCharacteristics(roic_gain=0.8, avalanche_gain=2.0, pixel_reset_voltage=12.0))
     cls, geo = {'CCD': (CCD, CCDGeometry), 'CMOS': (CMOS, CMOSGeometry), 'MKID': (MKID, MKIDGeometry)}[kind]
-    return cls(geometry=geo(row=2, col=3), environment=Environment(), characteristics=Characteristics())
+    return cls(geometry=geo(row=2, col=3, pixel_vert_size=1.0, pixel_horz_size=1.0), environment=Environment(), characteristics=Characteristics())
 VIOLATED, DETAIL = False, 'every detector type keeps its pixel content over empty(reset=False) and clears everything else'
 for kind in ('CCD', 'CMOS', 'MKID', 'APD'):
     for reset in (False, True):
@@ -593,6 +593,18 @@ for kind in ('CCD', 'CMOS', 'MKID', 'APD'):
             VIOLATED, DETAIL = True, f'{kind}.empty(reset={reset}): pixel {pix.ravel()[:2]}, photon set {d.photon._array is not None}, charge max {np.abs(d.charge.array).max()}'
             break
     if VIOLATED: break
+    # charge held as CLUSTERS and read through .array before the reset: nothing of it may survive into the next step
+    d = mk(kind)
+    z = np.zeros(2)
+    d.charge.add_charge(particle_type='e', particles_per_cluster=np.array([5.0, 7.0]), init_energy=z, init_ver_position=np.array([0.5, 1.5]), init_hor_position=np.array([0.5, 2.5]),
+                        init_z_position=z, init_ver_velocity=z, init_hor_velocity=z, init_z_velocity=z)
+    seen = float(np.asarray(d.charge.array).sum())
+    d.empty(True)
+    d.charge.add_charge_array(np.full((2, 3), 1.0))
+    after = float(np.asarray(d.charge.array).sum())
+    if seen != 12.0 or after != 6.0 or len(d.charge.frame) not in (0, 6):
+        VIOLATED, DETAIL = True, f'{kind}: 12 e- in clusters (read through .array: {seen}), empty(), then 1 e- per pixel added: the charge now sums to {after} (6 expected)'
+        break
 """, "expect": "empty(reset) clears photon, charge, signal, image and the scene; the pixel bucket is zeroed iff reset"}
 
 
